@@ -12,6 +12,7 @@ import FuraxModel.Config
 import FuraxModel.Index
 import FuraxModel.Einsum
 import FuraxModel.Diagonal
+import FuraxModel.StokesArith
 namespace Furax
 open SExp
 
@@ -219,10 +220,51 @@ def handleDiagonal (cmd : String) (args : List SExp) : Option SExp :=
   | "pinv", [vals] => do some (list [atom "ok", ofRats (Diagonal.pinvValues (← vals.rats?))])
   | _, _ => none
 
+def decSVal : SExp → Option (StokesArith.SVal Rat)
+  | list (atom "stokes" :: atom k :: comps) => do
+    some ⟨← StokesKind.ofName? k, ← comps.mapM decTensor⟩
+  | _ => none
+
+def decOperand : SExp → Option (StokesArith.Operand Rat)
+  | list [atom "scalar", a] => a.rat?.map .scalar
+  | list [atom "array", t] => (decTensor t).map .array
+  | atom "other" => some .other
+  | e => (decSVal e).map .stokes
+
+/-- `(stokes-op OP self operand)` = `self OP operand`; `(stokes-rop OP self operand)` = `operand OP self`;
+`(stokes-class NAME)`; `(from-stokes nargs (kw…))`; `(tree-dot ((x…)…) ((y…)…))` -/
+def handleStokesArith (cmd : String) (args : List SExp) : Option SExp :=
+  match cmd, args with
+  | c, [atom op, self, other] =>
+    if c == "stokes-op" || c == "stokes-rop" then do
+      let o ← StokesArith.BinOp.ofName? op
+      let s ← decSVal self
+      let r ← decOperand other
+      let res := if c == "stokes-op" then StokesArith.operation o s r else StokesArith.roperation o s r
+      match res with
+      | .ok v => some (list (atom "ok" :: atom v.kind.name :: v.comps.map encTensor))
+      | .notImplemented => some (list [atom "error", atom "TypeError"])
+      | .unsupported => some (list [atom "unsupported"])
+    else none
+  | "stokes-class", [atom n] =>
+    match StokesArith.classFor n with
+    | .ok k => some (list [atom "ok", atom k.name])
+    | .error e => some (replyErr e)
+  | "from-stokes", [n, kws] => do
+    let ks ← kws.list?.bind (·.mapM SExp.atom?)
+    match StokesArith.fromStokesKind (← n.nat?) ks with
+    | .ok k => some (list [atom "ok", atom k.name])
+    | .error e => some (replyErr e)
+  | "tree-dot", [x, y] => do
+    let xs ← x.list?.bind (·.mapM SExp.rats?)
+    let ys ← y.list?.bind (·.mapM SExp.rats?)
+    some (list [atom "ok", ofRat (StokesArith.dot xs ys)])
+  | _, _ => none
+
 def handle (line : String) : String :=
   match SExp.parse line with
   | some (list (atom cmd :: args)) =>
-    match ((handleLevelA cmd args).orElse (fun _ => handleStokes cmd args)).orElse (fun _ => handleToeplitz cmd args) |>.orElse (fun _ => handleAxes cmd args) |>.orElse (fun _ => handleLandscape cmd args) |>.orElse (fun _ => handleConfig cmd args) |>.orElse (fun _ => handleIndex cmd args) |>.orElse (fun _ => handleEinsum cmd args) |>.orElse (fun _ => handleDiagonal cmd args) with
+    match ((handleLevelA cmd args).orElse (fun _ => handleStokes cmd args)).orElse (fun _ => handleToeplitz cmd args) |>.orElse (fun _ => handleAxes cmd args) |>.orElse (fun _ => handleLandscape cmd args) |>.orElse (fun _ => handleConfig cmd args) |>.orElse (fun _ => handleIndex cmd args) |>.orElse (fun _ => handleEinsum cmd args) |>.orElse (fun _ => handleDiagonal cmd args) |>.orElse (fun _ => handleStokesArith cmd args) with
     | some r => r.toStr
     | none => "(bad-request)"
   | _ => "(bad-request)"
